@@ -173,6 +173,128 @@ def opCheck (spec dt dims : String) : String :=
     | .ok () => "ok"
     | .error r => showReport r
 
+/-! ## entry points -/
+
+/-- `N` | `X` | `T,dt,dims` | `U:v;v;…` -/
+def parseValueU (s : String) : Value :=
+  if s.startsWith "U:" then
+    let body := (s.drop 2).toString
+    .tup ((splitSemi body).map parseValue)
+  else parseValue s
+
+/-- one annotation spec as a hint: `-` plain; `cls,opt,shape` Annotated (wrapped in a Union with None when opt) -/
+def specToHint (s : String) : Except String Hint :=
+  match parseAnnSpec s with
+  | .absent => .ok .plain
+  | .bad e => .error e
+  | .good a =>
+    let h : Hint := .annotated true (some { a with optional := false })
+    -- second field: 0 plain, 1 `T | None`, 2 `T | int`, 3 `T | int | None`, 4 `Optional[T]`, 5 `None | T`,
+    --               6 `Annotated[int, ann]` (unsupported base type), 7 `T | None | None`-style nesting Optional[Optional[T]]
+    match (s.splitOn ",")[1]? with
+    | some "1" => .ok (.union [h, .none])
+    | some "2" => .ok (.union [h, .plain])
+    | some "3" => .ok (.union [h, .plain, .none])
+    | some "4" => .ok (.union [h, .none])
+    | some "5" => .ok (.union [.none, h])
+    | some "6" => .ok (.annotated false (some { a with optional := false }))
+    | some "7" => .ok (.union [h, .none])
+    | _ => .ok h
+
+def hintOf (mode specs : String) : Except String Hint := do
+  if mode == "S" then specToHint specs
+  else
+    let hs ← (splitSemi specs).mapM specToHint
+    pure (.tuple hs)
+
+structure CallSpec where
+  params : List (Name × Hint × Value) := []
+  ret : Option Hint := none
+  body : BodyResult := .returns .none
+  err : Option String := none
+
+def parseCallItems (items : List String) : CallSpec :=
+  items.foldl (fun (cs : CallSpec) (it : String) =>
+    match it.splitOn "|" with
+    | ["P", name, mode, specs, val] =>
+      match hintOf mode specs with
+      | .ok h => { cs with params := cs.params ++ [(name.toList, h, parseValueU val)] }
+      | .error e => { cs with err := cs.err <|> some e }
+    | ["D", _, _] => cs
+    | ["R", mode, specs, val] =>
+      let body := if val == "!" then BodyResult.raises else .returns (parseValueU val)
+      if mode == "-" then { cs with body := body } else
+      match hintOf mode specs with
+      | .ok h => { cs with ret := some h, body := body }
+      | .error e => { cs with err := cs.err <|> some e }
+    | _ => { cs with err := cs.err <|> some "bad-op" }) {}
+
+def showEnd : CallEnd → String
+  | .returned _ => "ok"
+  | .rejected r => showReport r
+  | .pyExc e => "pyexc " ++ e.show
+  | .bodyRaised => "bodyraised"
+  | .unmodelled => "unmodelled"
+
+def showOutcomeC : Outcome CState → String
+  | .ok _ => "ok"
+  | .reject r => showReport r
+  | .pyExc e => "pyexc " ++ e.show
+  | .unmodelled => "unmodelled"
+
+def parseProvider (prov scope : String) : Provider × Bool :=
+  let σ := parseScope scope
+  if prov == "-" then (.absent, false)
+  else if prov == "self" then (.self (some σ), true)
+  else if prov == "selfbad" then (.self none, true)
+  else if prov == "bad" then (.obj none, false)
+  else (.obj (some σ), false)
+
+def opCall (kindStyle prov scope : String) (items : List String) : String :=
+  let kind := (kindStyle.splitOn ":").headD ""
+  let cs := parseCallItems items
+  match cs.err with
+  | some e => "decor " ++ e
+  | none =>
+    if kind == "func" || kind == "method" then
+      let (p, selfProv) := parseProvider prov scope
+      match decorate selfProv (kind == "method") (cs.params.map fun (n, h, _) => (n, h)) cs.ret with
+      | .error _ => "decor pyexc TypeError"
+      | .identity =>
+        match cs.body with
+        | .raises => "identity calls=1 bodyraised"
+        | .returns _ => "identity calls=1 ok"
+      | .wrapped d =>
+        let tr := callWrapped genAcc d p (cs.params.map fun (n, _, v) => (n, v)) cs.body
+        "calls=" ++ toString tr.bodyCalls ++ " pre=" ++ showBool tr.argsCheckedBeforeBody ++ " " ++ showEnd tr.result
+    else if kind == "nt" || kind == "dc" then
+      match hintsOf (cs.params.map fun (n, h, _) => (n, h)) with
+      | .error _ => "decor pyexc TypeError"
+      | .ok fields => showOutcomeC (constructBatch genAcc fields (cs.params.map fun (n, _, v) => (n, v)))
+    else if kind == "pyd" then
+      -- annotated fields in declaration order; None under Optional is skipped by pydantic itself; a value
+      -- pydantic's own instance check refuses is recorded (ValidationError at the end) and validation goes on
+      let step (acc : Except String (List (Name × Ann × Tensor) × Bool)) (p : Name × Hint × Value) :=
+        match acc with
+        | .error e => .error e
+        | .ok (l, inv) =>
+          let (n, h, v) := p
+          match (fromHint h false).map (·.anns) with
+          | .ok [some a] =>
+            match v with
+            | .tensor t => .ok (l ++ [(n, a, t)], inv)
+            | .none => if a.optional then .ok (l, inv) else .ok (l, true)
+            | _ => .ok (l, true)
+          | .ok _ => .ok (l, inv)
+          | .error _ => .error "decor pyexc TypeError"
+      match cs.params.foldl step (.ok ([], false)) with
+      | .error e => e
+      | .ok (fs, inv) =>
+        match validateIncremental genAcc {} fs with
+        | .ok _ => if inv then "pyd-validation" else "ok"
+        | r => showOutcomeC r
+    else "bad-op"
+
 /-! ## specification side (independent oracle), printed after a tab -/
 
 def specDim (s : List Char) : String :=
@@ -209,6 +331,7 @@ def handle (line : String) : String :=
   | ["SHAPE", s] => opShape s ++ "\t" ++ specShape s
   | ["CHECK", spec, dt, dims] => opCheck spec dt dims
   | "CTX" :: scope :: cmds => opCtx scope cmds
+  | "CALL" :: kind :: prov :: scope :: items => opCall kind prov scope items
   | _ => "bad-op"
 
 partial def mainLoop (h : IO.FS.Stream) (out : IO.FS.Stream) : IO Unit := do
